@@ -1,7 +1,7 @@
 (* Executable model of the DAG exporters and constructors of bigtree:
      bigtree/dag/export.py:27-203     dag_to_list / dag_to_dict / dag_to_dataframe (on top of dag_iterator)
      bigtree/dag/construct.py:19-221  list_to_dag / dict_to_dag / dataframe_to_dag (name-keyed node table)
-     bigtree/node/dagnode.py:164-195  the `parents` setter with its loop guard (used as `child.parents = [p]`)
+     bigtree/node/dagnode.py:164-238  the `parents` setter with its loop guard (used as `child.parents = [p]`)
    No proofs in this file. *)
 From BT Require Import Base.Prelude Base.Str Base.Rose Algo.DagAlgo.
 
@@ -146,7 +146,7 @@ Fixpoint list_upd {A} (l : list A) (i : nat) (f : A -> A) : list A :=
 Definition b_set_attrs (b : bld) (x : id) (a : attrs) : bld :=
   BLD (b_names b) (list_upd (b_attrs b) x (fun old => attrs_update old a)) (b_edges b).
 
-(* child.parents = [parent]  (dagnode.py:118-195 with ASSERTIONS):
+(* child.parents = [parent]  (dagnode.py:164-238 with ASSERTIONS):
      parent is child                      -> LoopError
      child among parent.ancestors         -> LoopError
      parent already in child.__parents    -> nothing
